@@ -11,7 +11,7 @@ RULE = ("random histories (1-10 operations over all 23 attributes, save_images, 
 
 
 def run(ctx):
-    return _life.run(ctx, "C14", ORACLES, RULE, 250, 8000, 3, 4)
+    return _life.run(ctx, "C14", ORACLES, RULE, 250, 8000, 4, 5)
 
 
 def search(ctx, broken, corr_broken):
